@@ -457,6 +457,12 @@ Proof.
   - intros H i blk Hi Hb Hh. apply H. exists i, blk. auto.
 Qed.
 
+Definition u_ing1 : ingress :=
+  {| i_ns := "ns1"; i_name := "ing1"; i_stamp := 10; i_class := None;
+     i_rules := []; i_tls := [(["*.wild.example"], "tls-1")] |}.
+Definition x_world_u : world :=
+  {| w_ings := [u_ing1]; w_svcs := []; w_eps := []; w_secrets := [("ns1/tls-1", "HASH-ns1-tls-1")] |}.
+
 (* a name without tls declaration belongs to the wildcard host covering it *)
 Theorem sni_undeclared : forall w n, name_ok n -> no_tls_entry w n ->
   served w n = match wild_of n with
@@ -467,6 +473,18 @@ Proof.
   intros w n Hok Hno. rewrite (served_spec w n Hok). unfold effective_ref.
   apply no_tls_entry_winner in Hno. rewrite Hno.
   destruct (wild_of n) as [wn|]; [|reflexivity]. reflexivity.
+Qed.
+
+(* the hypotheses are satisfiable: nobody declares tls for c.wild.example (not even a host)
+   and it belongs to the wildcard host of ns1 *)
+Example sni_undeclared_example :
+  name_ok "c.wild.example" /\ no_tls_entry x_world_u "c.wild.example" /\
+  served x_world_u "c.wild.example" = "HASH-ns1-tls-1".
+Proof.
+  assert (Hok : name_ok "c.wild.example") by (split; [discriminate|reflexivity]).
+  assert (Hno : no_tls_entry x_world_u "c.wild.example").
+  { intros i blk [<-|[]]. cbn. intros [<-|[]]. cbn. intros [H|[]]. discriminate. }
+  refine (conj Hok (conj Hno _)). rewrite (sni_undeclared _ _ Hok Hno). vm_compute. reflexivity.
 Qed.
 
 (* H: no wildcard host with a custom certificate covers the name *)
